@@ -593,6 +593,9 @@ type SpecFun struct {
 	Body   Expr
 	File   string
 	Pkg    string // package path of the contract file that declares it ("" for spec files)
+	// Rec: recursive definition over the function-entry state ("spec fun rec f(...) T = body"):
+	// heap reads in the body see the state on entry to the function under verification.
+	Rec bool
 }
 
 type NamedProp struct {
@@ -1043,6 +1046,11 @@ func qualifyRef(ref, pkgPath string) string {
 
 func parseSpecFun(rest string) (*SpecFun, error) {
 	rest = strings.TrimSpace(strings.TrimPrefix(rest, "fun"))
+	rec := false
+	if strings.HasPrefix(rest, "rec ") {
+		rec = true
+		rest = strings.TrimSpace(strings.TrimPrefix(rest, "rec "))
+	}
 	i := strings.Index(rest, "(")
 	if i < 0 {
 		return nil, fmt.Errorf("spec fun: missing (")
@@ -1052,7 +1060,7 @@ func parseSpecFun(rest string) (*SpecFun, error) {
 	if j < i {
 		return nil, fmt.Errorf("spec fun: missing )")
 	}
-	sf := &SpecFun{Name: name}
+	sf := &SpecFun{Name: name, Rec: rec}
 	for _, p := range splitTop(rest[i+1 : j]) {
 		fs := strings.Fields(p)
 		if len(fs) != 2 {
@@ -1073,6 +1081,9 @@ func parseSpecFun(rest string) (*SpecFun, error) {
 	}
 	if sf.Ret == "" {
 		return nil, fmt.Errorf("spec fun %s: missing result sort", name)
+	}
+	if sf.Rec && sf.Body == nil {
+		return nil, fmt.Errorf("spec fun rec %s: needs a body", name)
 	}
 	return sf, nil
 }
